@@ -500,6 +500,7 @@ macro_rules! filter_combo {
                     if !f[k.clone()] {
                         return Some(Violation::new("false_negative", format!("{ctx}:index"), format!("filter[key #{i}] = false"), "true for every inserted key"));
                     }
+                    filter_combo!(@unaligned $back, $w, f, k, i, want_bits, obs, ctx);
                 }
                 let mut pos = 0u64;
                 let base = case.n as u64 + 1_000_003;
@@ -519,6 +520,17 @@ macro_rules! filter_combo {
                 }
                 None
             });
+        }
+    };
+    (@unaligned boxed, $w:ty, $f:ident, $k:ident, $i:ident, $bits:ident, $obs:ident, $ctx:ident) => {};
+    (@unaligned bfv, $w:ty, $f:ident, $k:ident, $i:ident, $bits:ident, $obs:ident, $ctx:ident) => {
+        // the unaligned query path, whenever its documented preconditions hold (admissible width; the
+        // builder allocates the padding word)
+        if unaligned_ok($bits as usize, <$w>::BITS as usize) {
+            $obs.checks += 1;
+            if !$f.contains_unaligned($k.clone()) {
+                return Some(Violation::new("false_negative", format!("{}:contains_unaligned", $ctx), format!("contains_unaligned(key #{}) = false (b = {})", $i, $bits), "true for every inserted key"));
+            }
         }
     };
     (@build boxed, $w:ty, $b:ident, $kl:ident, $case:ident) => {
